@@ -15,7 +15,11 @@ func (k Keeper) VestingPools(goCtx context.Context, req *types.QueryVestingPools
 	}
 
 	ctx := sdk.UnwrapSDKContext(goCtx)
-	accountVestingPools, found := k.GetAccountVestingPools(ctx, req.Owner)
+	owner := req.Owner
+	if ownerAddress, err := sdk.AccAddressFromBech32(owner); err == nil {
+		owner = ownerAddress.String() // canonical spelling
+	}
+	accountVestingPools, found := k.GetAccountVestingPools(ctx, owner)
 	if !found {
 		return nil, status.Error(codes.NotFound, "vesting pools not found")
 	}
